@@ -145,6 +145,30 @@ CLAIMS['C27'] = dict(engine='rtc (E3)', category='exploration',
          'including left-handed and non-diagonal supercell matrices and in-place edit histories.',
     note='Catalogue crystals x seeded supercell matrices.')
 
+CLAIMS['C16'] = dict(engine='rtc (E3)', category='exploration',
+    technique='run-time postconditions V(result) = op(V(operands)) with frame / no-aliasing clauses on every Taylor3D/Taylor2D operation against an independently written evaluator; index tables decided exhaustively for the fixed Lmax against scipy harmonics; bounded stand-in',
+    text='Bounded: sum, difference, negation, scalar / dictionary / matrix products, products of expansions, slices and slice assignment, truncation, reduction, collection, separation, in-place forms and '
+         'construction from direction/matrix pairs commute with evaluation at sampled points for random expansions (n in -2..4, l <= 4, four value shapes), operands keep their values and share no storage with results; '
+         'all index tables are checked exhaustively for Lmax = 4.',
+    note='Floating point at relative 2e-9; scipy harmonics trusted.')
+
+CLAIMS['C17'] = dict(engine='rtc (E3)', category='exploration',
+    technique='run-time postconditions of rotatedirections/rotate/irotate (value at p equals original at M p) and inv (inverse times original is the identity through the requested order, both sides) against an independently written evaluator; bounded stand-in',
+    text='Bounded: random invertible non-orthogonal, orthogonal, diagonal and permutation matrices, parity-consistent reduced and un-reduced expansions, three value shapes; inversion with lead order 0..2, requested order -1..2; 2D and 3D.',
+    note='Floating point at relative 2e-9.')
+
+CLAIMS['C29'] = dict(engine='rtc (E3)', category='exploration',
+    technique='run-time postconditions of Interstitial.makesupercells and VacancyMediated.makesupercells stated from the tag strings (site-by-site occupancy, single moving atom, recorded mapping applied by hand, too-small warning); bounded stand-in',
+    text='Bounded: on 3D catalogue crystals x diagonal, sheared, rotated, left-handed and too-small supercell matrices, every state cell has exactly the defects its tag names, transition pairs differ by one moving atom '
+         'displaced by the jump modulo the cell, recorded mappings carry the named state onto the endpoint, missing mappings only when no state maps, cells in which kinetic-shell states coincide warn.',
+    note='Nthermo = 1; Supercell is 3D only.')
+
+CLAIMS['C30'] = dict(engine='rtc (E3)', category='exploration',
+    technique='run-time postconditions of automator.supercelltar / map2string: archive read back with tarfile, POSCARs parsed by an independent reader, bundled trans.pl executed with perl on the archive\'s own files, Makefile rules parsed; bounded stand-in',
+    text='Bounded: tag map is a bijection onto the state/transition directories, every POSCAR reads back to its supercell, trans.pl applied to a state structure with each transformation file reproduces the endpoint, '
+         'every Makefile dependency exists or is a relaxed-state CONTCAR of an existing state directory, NEBlist files agree.',
+    note='perl and tarfile trusted; nebmake.pl / Vasp.pm only checked for presence.')
+
 NOT_APPLICABLE = {
     'C01': 'no contract within reach: the postcondition "equals the infinite-dilution limit of the exact Markov chain, to integration accuracy" needs an independent infinite-lattice solver as oracle (differential testing, a different technique) and no SMT/CAS obligation expresses a quadrature error; the discrete mechanisms it rests on are claimed in C24-C26, its invariances in C04, its sum rules in C06',
     'C05': 'a 2-safety statement about the Loewner order of two outputs (Rayleigh monotonicity): a variational theorem of detailed balance, not an invariant of any loop or a postcondition of one call; its only executable form is a numeric comparison of two runs (testing, not contract checking)',
